@@ -1,6 +1,8 @@
 import Gv.Proofs.CodonCore0
 import Gv.Proofs.CodonCore1
 import Gv.Proofs.CodonCore2
+import Gv.Proofs.TranslateAlign
+import Gv.Proofs.TranslateRef
 /-!
 # C05 — translation follows the genetic code for every codon, frame and ambiguity
 
@@ -149,9 +151,584 @@ theorem translate_residue (codeId : Int) (code) (hg : geneticCode codeId = some 
       rw [codonsFrom_get code _ _ (Nat.le_refl _) i hlen]
       simp [List.getD_eq_getElem?_getD, List.getElem?_drop, Nat.add_assoc]
 
+/-! ## table facts used by the container-level theorems -/
+
+private theorem ncbi_no_gap : ∀ code ∈ [0, 1, 2], ∀ e ∈ Spec.ncbi code, e ≠ 45 := by decide
+
+private theorem expansions_ne_gap (tb : List Byte) (htb : ∀ e ∈ tb, e ≠ 45) (X Y Z : List Byte) :
+    ∀ e ∈ Spec.expansions tb X Y Z, e ≠ 45 := by
+  intro e he
+  simp only [Spec.expansions, List.mem_flatMap, List.mem_map] at he
+  obtain ⟨x, _, y, _, z, _, rfl⟩ := he
+  unfold Spec.ncbiAA
+  rw [List.getD_eq_getElem?_getD]
+  cases h : tb[16 * Spec.baseIdx x + 4 * Spec.baseIdx y + Spec.baseIdx z]? with
+  | none => decide
+  | some v => exact htb v (List.mem_of_getElem? h)
+
+private theorem spec_ne_gap (tb : List Byte) (htb : ∀ e ∈ tb, e ≠ 45) (a b c : Byte)
+    (h : ¬ (a = 45 ∧ b = 45 ∧ c = 45)) : Spec.translateCodon tb a b c ≠ 45 := by
+  unfold Spec.translateCodon
+  rw [if_neg h]
+  split
+  · rename_i X Y Z _ _ _
+    split
+    · decide
+    · rename_i aa rest he
+      split
+      · exact expansions_ne_gap tb htb X Y Z aa (by rw [he]; simp)
+      · decide
+  · decide
+
+/-- the codon of three gaps is translated to a gap, under each of the three codes -/
+theorem gap_codon (code : Nat) (hc : code ∈ [0, 1, 2]) : translateCodon (tbl code) GAP GAP GAP = GAP := by
+  rw [translateCodon_eq_spec code hc]
+  simp [Spec.translateCodon, GAP]
+
+/-- **a gap comes out only of the codon of three gaps** (so the gaps of a translated row are exactly its
+all-gap codons) -/
+theorem codon_gap_iff (code : Nat) (hc : code ∈ [0, 1, 2]) (a b c : Byte) :
+    translateCodon (tbl code) a b c = GAP ↔ (a = GAP ∧ b = GAP ∧ c = GAP) := by
+  constructor
+  · intro h
+    rw [translateCodon_eq_spec code hc] at h
+    by_cases hg : a = 45 ∧ b = 45 ∧ c = 45
+    · exact hg
+    · exact absurd h (spec_ne_gap _ (ncbi_no_gap code hc) a b c hg)
+  · rintro ⟨rfl, rfl, rfl⟩
+    exact gap_codon code hc
+
+private theorem geneticCode_tbl (codeId : Int) (code : List (List Byte × Byte)) (h : geneticCode codeId = some code) :
+    ∃ n, n ∈ [0, 1, 2] ∧ code = tbl n := by
+  have hd := geneticCode_dispatch
+  by_cases h0 : codeId = 0
+  · subst h0; rw [hd.1] at h; exact ⟨0, by simp, by simpa using h.symm⟩
+  · by_cases h1 : codeId = 1
+    · subst h1; rw [hd.2.1] at h; exact ⟨1, by simp, by simpa using h.symm⟩
+    · by_cases h2 : codeId = 2
+      · subst h2; rw [hd.2.2.1] at h; exact ⟨2, by simp, by simpa using h.symm⟩
+      · rw [hd.2.2.2 codeId h0 h1 h2] at h; simp at h
+
+/-- what a successful `Sequence.Translate` returns -/
+theorem translate_eq_codons (codeId : Int) (code) (hg : geneticCode codeId = some code) (f : Nat) (s p : Seq)
+    (h : translateSeq f codeId s = some p) : p = codonsFrom code (s.drop f) ∧ 3 + f ≤ s.length := by
+  unfold translateSeq at h
+  rw [hg] at h
+  simp only [Proofs.TranslateAlign.bufferTranslate_eq] at h
+  split at h
+  · rename_i hc
+    simp only [Option.some.injEq] at h
+    exact ⟨h.symm, hc.2⟩
+  · simp at h
+
+/-! ## CodonAlign -/
+
+private theorem mapM_rows {α β : Type} (f : α → Option β) (l : List α) (out : List β) (h : l.mapM f = some out) :
+    out.length = l.length ∧ ∀ (i : Nat) (a : α), l[i]? = some a → ∃ b, out[i]? = some b ∧ f a = some b := by
+  induction l generalizing out with
+  | nil =>
+    simp at h
+    subst h
+    simp
+  | cons a t ih =>
+    rw [List.mapM_cons] at h
+    cases ha : f a with
+    | none => simp [ha] at h
+    | some b =>
+      cases ht : t.mapM f with
+      | none => simp [ha, ht] at h
+      | some bs =>
+        simp [ha, ht] at h
+        subst h
+        have := ih bs ht
+        refine ⟨by simp [this.1], ?_⟩
+        intro i x hx
+        cases i with
+        | zero =>
+          simp at hx; subst hx
+          exact ⟨b, by simp, ha⟩
+        | succ i =>
+          simp at hx
+          obtain ⟨b', h1, h2⟩ := this.2 i x hx
+          exact ⟨b', by simpa using h1, h2⟩
+
+/-- **`CodonAlign`, container level**: on success the result has as many rows as the protein alignment, and
+its `i`-th row carries the name of the `i`-th protein row and is the codon-threaded form of the nucleotide
+sequence of that name -/
+theorem codonAlign_rows (alphaP alphaN : Nat) (prot nts out : List (String × Seq))
+    (h : codonAlign alphaP alphaN prot nts = some out) :
+    alphaP = AMINOACIDS ∧ alphaN = NUCLEOTIDS ∧ out.length = prot.length ∧
+    ∀ (i : Nat) (r : String × Seq), prot[i]? = some r → ∃ nt b, findRow r.1 nts = some nt ∧ codonAlignRow r.2 nt = some b ∧
+      out[i]? = some (r.1, b) := by
+  unfold codonAlign at h
+  by_cases h1 : alphaP = AMINOACIDS
+  · by_cases h2 : alphaN = NUCLEOTIDS
+    · subst h1; subst h2
+      simp only [bne_self_eq_false, Bool.false_eq_true, if_false] at h
+      have hm := mapM_rows _ _ _ h
+      refine ⟨rfl, rfl, hm.1, ?_⟩
+      intro i r hr
+      obtain ⟨o, ho, hro⟩ := hm.2 i r hr
+      cases hf : findRow r.1 nts with
+      | none => simp [hf] at hro
+      | some nt =>
+        simp only [hf, Option.map_eq_some_iff] at hro
+        obtain ⟨b, hb, rfl⟩ := hro
+        exact ⟨nt, b, rfl, hb, ho⟩
+    · have : (alphaN != NUCLEOTIDS) = true := by simpa using h2
+      subst h1
+      simp [this] at h
+  · have : (alphaP != AMINOACIDS) = true := by simpa using h1
+    simp [this] at h
+
+/-- **the codon alignment is three times as long as the protein row** -/
+theorem codonAlign_length (p nt b : Seq) (h : codonAlignRow p nt = some b) : b.length = 3 * p.length := by
+  unfold codonAlignRow at h
+  cases hc : codonThread p nt with
+  | none => simp [hc] at h
+  | some r =>
+    obtain ⟨b', r'⟩ := r
+    simp only [hc] at h
+    split at h
+    · simp only [Option.some.injEq] at h; subst h
+      exact Proofs.TranslateAlign.codonThread_length p nt b' r' hc
+    · simp at h
+
+/-- **its ungapped form is the original nucleotides minus at most two trailing ones** (for nucleotide
+sequences that contain no gap themselves; in general: the gaps of the nucleotides are counted as characters
+while threading and disappear with the others when un-gapping) -/
+theorem codonAlign_ungapped_rows (p nt b : Seq) (h : codonAlignRow p nt = some b) :
+    ∃ used rest, nt = used ++ rest ∧ rest.length ≤ 2 ∧ ungap b = ungap used ∧
+      ((∀ x ∈ nt, x ≠ GAP) → ungap b ++ rest = nt) := by
+  unfold codonAlignRow at h
+  cases hc : codonThread p nt with
+  | none => simp [hc] at h
+  | some r =>
+    obtain ⟨b', r'⟩ := r
+    simp only [hc] at h
+    split at h
+    · rename_i hr
+      simp only [Option.some.injEq] at h; subst h
+      obtain ⟨used, hu1, hu2⟩ := Proofs.TranslateAlign.codonThread_uses p nt b' r' hc
+      refine ⟨used, r', hu1, hr, hu2, ?_⟩
+      intro hn
+      rw [hu2, Proofs.TranslateAlign.ungap_of_no_gap used (fun x hx => hn x (by rw [hu1]; simp [hx]))]
+      exact hu1.symm
+    · simp at h
+
+/-- **`CodonAlign` accepts a row exactly when its nucleotide sequence holds three nucleotides per residue and at
+most two more** -/
+theorem codonAlign_error_iff (p nt : Seq) :
+    codonAlignRow p nt = none ↔
+      (nt.length < 3 * (ungap p).length ∨ 3 * (ungap p).length + 2 < nt.length) := by
+  unfold codonAlignRow
+  by_cases h : 3 * (ungap p).length ≤ nt.length
+  · obtain ⟨b, hb⟩ := Proofs.TranslateAlign.codonThread_some p nt h
+    rw [hb]
+    simp only [List.length_drop]
+    by_cases h2 : nt.length - 3 * (ungap p).length ≤ 2
+    · rw [if_pos h2]; simp; omega
+    · rw [if_neg h2]; simp; omega
+  · rw [Proofs.TranslateAlign.codonThread_none p nt (by omega)]
+    simp; omega
+
+/-- **threading nucleotides onto a gapped copy of their own translation succeeds, and the codon alignment
+translates back to that protein row**, under each of the three codes -/
+theorem codonAlign_translates_back (codeId : Int) (nt p q : Seq)
+    (ht : translateSeq 0 codeId nt = some q) (hp : ungap p = q) :
+    ∃ b, codonAlignRow p nt = some b ∧ translateSeq 0 codeId b = some p := by
+  cases hg : geneticCode codeId with
+  | none => simp [translateSeq, hg] at ht
+  | some code =>
+    obtain ⟨n, hn, rfl⟩ := geneticCode_tbl codeId code hg
+    have hq := translate_eq_codons codeId _ hg 0 nt q ht
+    simp only [List.drop_zero] at hq
+    obtain ⟨b, r, h1, h2, h3⟩ := Proofs.TranslateAlign.codonThread_back (tbl n) (gap_codon n hn) p nt (by rw [hp, hq.1])
+    refine ⟨b, by simp [codonAlignRow, h1, h2], ?_⟩
+    -- the protein row is not empty (its ungapped form is a non-empty translation)
+    have hqlen : q.length ≥ 1 := by
+      have := translate_length codeId 0 nt q ht
+      omega
+    have hplen : p.length ≥ 1 := by
+      have : (ungap p).length ≤ p.length := List.length_filter_le _ _
+      rw [hp] at this; omega
+    have hblen := Proofs.TranslateAlign.codonThread_length p nt b r h1
+    -- every character of the codon alignment may be a nucleotide
+    have hnt : nt.all Proofs.TranslateAlign.ntOK = true := by
+      unfold translateSeq at ht
+      rw [hg] at ht
+      simp only [Proofs.TranslateAlign.bufferTranslate_eq] at ht
+      split at ht
+      · rename_i hc; exact hc.1
+      · simp at ht
+    have hb : b.all Proofs.TranslateAlign.ntOK = true := by
+      rw [List.all_eq_true] at hnt ⊢
+      intro c hc
+      rcases Proofs.TranslateAlign.codonThread_chars p nt b r h1 c hc with e | e
+      · rw [e]; exact Proofs.TranslateAlign.gap_ntOK
+      · exact hnt c e
+    unfold translateSeq
+    rw [hg]
+    simp only [Proofs.TranslateAlign.bufferTranslate_eq]
+    rw [if_pos ⟨hb, by omega⟩]
+    simp [h3]
+
+/-! ## TranslateByReference -/
+
+private theorem byRef_unfold (alphabet phase : Nat) (codeId : Int) (refName : String) (rows out : List (String × Seq))
+    (h : translateByReference alphabet phase codeId refName rows = some out) :
+    ∃ refId code, findRowIdx refName rows 0 = some refId ∧ geneticCode codeId = some code ∧
+      out = rows.zipIdx.map fun x =>
+        (x.1.1, if x.2 == refId then (refSegs code (rows.getD refId ("", [])).2.length ((rows.getD refId ("", [])).2.drop phase)).flatMap refChunk
+                else compRow code (refSegs code (rows.getD refId ("", [])).2.length ((rows.getD refId ("", [])).2.drop phase)) (x.1.2.drop phase)) := by
+  unfold translateByReference at h
+  split at h
+  · simp at h
+  · split at h
+    · simp at h
+    · rename_i refId hid
+      split at h
+      · simp at h
+      · split at h
+        · simp at h
+        · rename_i code hcode
+          simp only [Option.some.injEq] at h
+          exact ⟨refId, code, hid, hcode, h.symm⟩
+
+/-- **the result is rectangular** (every frame): same names in the same order, and all rows of one length -/
+theorem byRef_rectangular (alphabet phase : Nat) (codeId : Int) (refName : String) (rows out : List (String × Seq))
+    (h : translateByReference alphabet phase codeId refName rows = some out) :
+    out.map Prod.fst = rows.map Prod.fst ∧ ∃ w, ∀ o ∈ out, o.2.length = w := by
+  obtain ⟨refId, code, _, _, rfl⟩ := byRef_unfold alphabet phase codeId refName rows out h
+  refine ⟨Proofs.TranslateRef.names_preserved _ rows 0, ?_⟩
+  refine ⟨((refSegs code (rows.getD refId ("", [])).2.length ((rows.getD refId ("", [])).2.drop phase)).flatMap refChunk).length, ?_⟩
+  intro o ho
+  simp only [List.mem_map] at ho
+  obtain ⟨x, _, rfl⟩ := ho
+  simp only []
+  split
+  · rfl
+  · exact Proofs.TranslateRef.compRow_length code _ (Proofs.TranslateRef.refSegs_len code _ _) _
+
+private theorem findRowIdx_lt (name : String) (rows : List (String × Seq)) (k i : Nat)
+    (h : findRowIdx name rows k = some i) : i < k + rows.length := by
+  induction rows generalizing k with
+  | nil => simp [findRowIdx] at h
+  | cons r t ih =>
+    obtain ⟨n, s⟩ := r
+    unfold findRowIdx at h
+    split at h
+    · simp at h; simp; omega
+    · have := ih (k + 1) h; simp; omega
+
+/-- **without gaps, reference-guided translation is plain translation, in every frame**: when no row of the
+alignment (all rows of one length) contains a gap, every row of the result is the codon-by-codon translation
+of that row from `phase` on — which is what `Sequence.Translate` returns whenever it succeeds on that row.
+**Partial**: what is missing for "coincides with plain translation" is the error case — when the alignment is
+shorter than `3 + phase` plain translation is an error but the reference-guided one succeeds with rows
+without residues (`byRef_short_returns_empty_rows`, `byRef_no_gaps_counterexample`). -/
+theorem byRef_eq_translate_of_no_gaps_partial (alphabet phase : Nat) (codeId : Int) (refName : String)
+    (rows out : List (String × Seq)) (L : Nat)
+    (hrect : ∀ r ∈ rows, r.2.length = L) (hnogap : ∀ r ∈ rows, ∀ x ∈ r.2, x ≠ GAP)
+    (h : translateByReference alphabet phase codeId refName rows = some out) :
+    ∃ code, geneticCode codeId = some code ∧
+      out = rows.map (fun r => (r.1, codonsFrom code (r.2.drop phase))) ∧
+      ∀ r ∈ rows, ∀ p, translateSeq phase codeId r.2 = some p → (r.1, p) ∈ out := by
+  obtain ⟨refId, code, hid, hcode, rfl⟩ := byRef_unfold alphabet phase codeId refName rows out h
+  have hlt := findRowIdx_lt refName rows 0 refId hid
+  have hmem : rows.getD refId ("", []) ∈ rows := by
+    rw [List.getD_eq_getElem?_getD, List.getElem?_eq_getElem (by omega)]
+    exact List.getElem_mem _
+  generalize hrefdef : rows.getD refId ("", []) = ref at hmem
+  have hrl := hrect ref hmem
+  have hrg := hnogap ref hmem
+  have hseg := Proofs.TranslateRef.refSegs_nogap code ref.2.length (ref.2.drop phase)
+    (by simp) (fun x hx => hrg x (List.mem_of_mem_drop hx))
+  have hout : (rows.zipIdx.map fun x =>
+      (x.1.1, if x.2 == refId then (refSegs code ref.2.length (ref.2.drop phase)).flatMap refChunk
+              else compRow code (refSegs code ref.2.length (ref.2.drop phase)) (x.1.2.drop phase))) =
+      rows.map (fun r => (r.1, codonsFrom code (r.2.drop phase))) := by
+    have : (rows.zipIdx.map fun x =>
+        (x.1.1, if x.2 == refId then (refSegs code ref.2.length (ref.2.drop phase)).flatMap refChunk
+                else compRow code (refSegs code ref.2.length (ref.2.drop phase)) (x.1.2.drop phase))) =
+        rows.zipIdx.map ((fun r => (r.1, codonsFrom code (r.2.drop phase))) ∘ Prod.fst) := by
+      apply List.map_congr_left
+      intro x hx
+      have hxm : x.1 ∈ rows := List.fst_mem_of_mem_zipIdx hx
+      have hxi : rows[x.2]? = some x.1 := List.mem_zipIdx_iff_getElem?.mp hx
+      simp only [Function.comp]
+      congr 1
+      split
+      · rename_i he
+        have he' : x.2 = refId := by simpa using he
+        -- the row at the reference index is the reference row
+        have hxr : x.1 = ref := by
+          rw [List.getD_eq_getElem?_getD, ← he', hxi] at hrefdef
+          simpa using hrefdef
+        rw [hxr]
+        exact hseg.1
+      · apply hseg.2
+        · simp [hrect x.1 hxm, hrl]
+        · intro c hc; exact hnogap x.1 hxm c (List.mem_of_mem_drop hc)
+    rw [this, ← List.map_map, List.zipIdx_map_fst]
+  refine ⟨code, hcode, hout, ?_⟩
+  intro r hr p hp
+  rw [hout]
+  have := translate_eq_codons codeId code hcode phase r.2 p hp
+  rw [this.1]
+  exact List.mem_map.mpr ⟨r, hr, rfl⟩
+
+private theorem refSegs_short (code : List (List Byte × Byte)) (fuel : Nat) (rem : Seq) (h : rem.length < 3) :
+    refSegs code fuel rem = [] := by
+  cases fuel with
+  | zero => rfl
+  | succ fuel =>
+    match rem, h with
+    | [], _ => rfl
+    | [_], _ => rfl
+    | [_, _], _ => rfl
+    | _ :: _ :: _ :: _, h => simp at h; omega
+
+/-- **where the two differ**: on an alignment shorter than `3 + phase` plain translation is an error for every
+row, while `TranslateByReference` succeeds and returns rows without any residue -/
+theorem byRef_short_returns_empty_rows (alphabet phase : Nat) (codeId : Int) (refName : String)
+    (rows out : List (String × Seq)) (hshort : ∀ r ∈ rows, r.2.length < 3 + phase)
+    (h : translateByReference alphabet phase codeId refName rows = some out) :
+    out = rows.map (fun r => (r.1, [])) ∧ ∀ r ∈ rows, translateSeq phase codeId r.2 = none := by
+  obtain ⟨refId, code, hid, hcode, rfl⟩ := byRef_unfold alphabet phase codeId refName rows out h
+  have hlt := findRowIdx_lt refName rows 0 refId hid
+  have hmem : rows.getD refId ("", []) ∈ rows := by
+    rw [List.getD_eq_getElem?_getD, List.getElem?_eq_getElem (by omega)]
+    exact List.getElem_mem _
+  have hs := refSegs_short code (rows.getD refId ("", [])).2.length ((rows.getD refId ("", [])).2.drop phase)
+    (by have := hshort _ hmem; rw [List.length_drop]; omega)
+  refine ⟨?_, ?_⟩
+  · rw [hs]
+    simp only [List.flatMap_nil, compRow, ite_self]
+    rw [show (fun x : (String × Seq) × Nat => (x.1.1, ([] : Seq))) = (fun r : String × Seq => (r.1, ([] : Seq))) ∘ Prod.fst from rfl,
+      ← List.map_map, List.zipIdx_map_fst]
+  · intro r hr
+    rw [translate_error_iff]
+    exact Or.inr (Or.inr (hshort r hr))
+
+/-- kernel-checked instance of the difference: two rows `AC` (no gap), frame 0, standard code -/
+theorem byRef_no_gaps_counterexample :
+    translateByReference NUCLEOTIDS 0 0 "r" [("r", [65, 67]), ("s", [65, 67])] = some [("r", []), ("s", [])] ∧
+    translateSeq 0 0 [65, 67] = none ∧ translateFrames NUCLEOTIDS 0 0 [("r", [65, 67]), ("s", [65, 67])] = none := by
+  decide
+
+/-- **the reference row, gaps removed, is a prefix of the translation of the ungapped reference** read from
+column `phase` on (for every gap placement; the walk stops at the first incomplete codon and drops nothing of
+the reference in between) -/
+theorem byRef_ref_row_prefix_from (alphabet phase : Nat) (codeId : Int) (refName : String) (rows out : List (String × Seq))
+    (h : translateByReference alphabet phase codeId refName rows = some out) :
+    ∃ code r o, geneticCode codeId = some code ∧ findRow refName rows = some r ∧ findRow refName out = some o ∧
+      ungap o <+: codonsFrom code (ungap (r.drop phase)) := by
+  obtain ⟨refId, code, hid, hcode, rfl⟩ := byRef_unfold alphabet phase codeId refName rows out h
+  obtain ⟨n, hn, rfl⟩ := geneticCode_tbl codeId code hcode
+  have hf := Proofs.TranslateRef.findRow_byIdx refName
+    ((refSegs (tbl n) (rows.getD refId ("", [])).2.length ((rows.getD refId ("", [])).2.drop phase)).flatMap refChunk)
+    (fun s => compRow (tbl n) (refSegs (tbl n) (rows.getD refId ("", [])).2.length ((rows.getD refId ("", [])).2.drop phase)) (s.drop phase))
+    rows 0 refId hid
+  refine ⟨tbl n, (rows.getD refId ("", [])).2, _, hcode, ?_, hf.1, ?_⟩
+  · simpa using hf.2
+  · exact Proofs.TranslateRef.refRow_prefix (tbl n)
+      (fun x y z hx _ _ hg => hx ((codon_gap_iff n hn x y z).mp hg).1)
+      (rows.getD refId ("", [])).2.length ((rows.getD refId ("", [])).2.drop phase)
+
+/-- **frame 0: the reference row, gaps removed, is a prefix of the translation of the ungapped reference** -/
+theorem byRef_ref_row_prefix (alphabet : Nat) (codeId : Int) (refName : String) (rows out : List (String × Seq))
+    (h : translateByReference alphabet 0 codeId refName rows = some out) :
+    ∃ code r o, geneticCode codeId = some code ∧ findRow refName rows = some r ∧ findRow refName out = some o ∧
+      ungap o <+: codonsFrom code (ungap r) := by
+  simpa using byRef_ref_row_prefix_from alphabet 0 codeId refName rows out h
+
+/-- `TranslateByReference` fails exactly for an empty or unknown reference name, a non-nucleotide alphabet or
+an unknown genetic code -/
+theorem byRef_error_iff (alphabet phase : Nat) (codeId : Int) (refName : String) (rows : List (String × Seq)) :
+    translateByReference alphabet phase codeId refName rows = none ↔
+      (refName = "" ∨ findRowIdx refName rows 0 = none ∨ (alphabet ≠ NUCLEOTIDS ∧ alphabet ≠ BOTH) ∨
+       geneticCode codeId = none) := by
+  unfold translateByReference
+  by_cases h0 : refName = ""
+  · simp [h0]
+  · have h0' : (refName == "") = false := by simpa using h0
+    simp only [h0', Bool.false_eq_true, if_false, h0, false_or]
+    cases h1 : findRowIdx refName rows 0 with
+    | none => simp
+    | some refId =>
+      simp only [reduceCtorEq, false_or]
+      by_cases h2 : alphabet = NUCLEOTIDS
+      · cases h3 : geneticCode codeId <;> simp [h2, NUCLEOTIDS, BOTH]
+      · by_cases h2' : alphabet = BOTH
+        · cases h3 : geneticCode codeId <;> simp [h2', NUCLEOTIDS, BOTH]
+        · simp [h2, h2']
+
+/-! ## three frames -/
+
+private theorem mapM_named {α : Type} (nm : α → String) (g : α → Option Seq) (l : List α) (out : List (String × Seq))
+    (h : l.mapM (fun x => (g x).map fun p => (nm x, p)) = some out) :
+    out.map Prod.fst = l.map nm ∧ ∀ (i : Nat) (x : α), l[i]? = some x → ∃ p, g x = some p ∧ out[i]? = some (nm x, p) := by
+  have hm := mapM_rows _ l out h
+  refine ⟨?_, ?_⟩
+  · apply List.ext_getElem?
+    intro i
+    simp only [List.getElem?_map]
+    cases hl : l[i]? with
+    | none =>
+      have : out[i]? = none := by
+        rw [List.getElem?_eq_none_iff] at hl ⊢
+        omega
+      simp [this]
+    | some x =>
+      obtain ⟨b, hb, hx⟩ := hm.2 i x hl
+      simp only [Option.map_eq_some_iff] at hx
+      obtain ⟨p, _, rfl⟩ := hx
+      simp [hb]
+  · intro i x hx
+    obtain ⟨b, hb, hf⟩ := hm.2 i x hx
+    simp only [Option.map_eq_some_iff] at hf
+    obtain ⟨p, hp, rfl⟩ := hf
+    exact ⟨p, hp, hb⟩
+
+/-- **translation in the three frames** (`phase = −1`): three rows per input row, in row order then frame order,
+named `<name>_0`, `<name>_1`, `<name>_2`, the `k`-th of them being the translation of the row in frame `k` -/
+theorem three_frames_names_and_count (alphabet : Nat) (codeId : Int) (rows out : List (String × Seq))
+    (h : translateFrames alphabet (-1) codeId rows = some out) :
+    out.length = 3 * rows.length ∧
+    out.map Prod.fst = rows.flatMap (fun r => [r.1 ++ "_" ++ toString 0, r.1 ++ "_" ++ toString 1, r.1 ++ "_" ++ toString 2]) ∧
+    ∀ (i : Nat) (r : String × Seq), rows[i]? = some r → ∀ k, k < 3 →
+      ∃ p, translateSeq k codeId r.2 = some p ∧ out[3 * i + k]? = some (r.1 ++ "_" ++ toString k, p) := by
+  unfold translateFrames at h
+  cases hg : geneticCode codeId with
+  | none => simp [hg] at h
+  | some code =>
+    simp only [hg] at h
+    split at h
+    · simp at h
+    · have hm := mapM_named (fun x : String × Nat × Seq => x.1) (fun x => translateSeq x.2.1 codeId x.2.2) _ out h
+      have hfl : (rows.flatMap fun r => (framesOf (-1)).map fun f => (frameName (-1) r.1 f, f, r.2)) =
+          rows.flatMap fun r => [(r.1 ++ "_" ++ toString 0, 0, r.2), (r.1 ++ "_" ++ toString 1, 1, r.2), (r.1 ++ "_" ++ toString 2, 2, r.2)] := by
+        have e1 : framesOf (-1) = [0, 1, 2] := rfl
+        have e2 : ∀ (n : String) (f : Nat), frameName (-1) n f = n ++ "_" ++ toString f := fun _ _ => rfl
+        simp only [e1, e2, List.map_cons, List.map_nil]
+      rw [hfl] at hm
+      have hlen : ∀ (l : List (String × Seq)),
+          (l.flatMap fun r => [(r.1 ++ "_" ++ toString 0, 0, r.2), (r.1 ++ "_" ++ toString 1, 1, r.2), (r.1 ++ "_" ++ toString 2, 2, r.2)]).length = 3 * l.length := by
+        intro l
+        induction l with
+        | nil => rfl
+        | cons a t ih =>
+          simp only [List.flatMap_cons, List.length_append, List.length_cons, List.length_nil, ih]; omega
+      have hget : ∀ (l : List (String × Seq)) (i : Nat) (r : String × Seq), l[i]? = some r → ∀ k, k < 3 →
+          (l.flatMap fun r => [(r.1 ++ "_" ++ toString 0, 0, r.2), (r.1 ++ "_" ++ toString 1, 1, r.2), (r.1 ++ "_" ++ toString 2, 2, r.2)])[3 * i + k]? =
+            some (r.1 ++ "_" ++ toString k, k, r.2) := by
+        intro l
+        induction l with
+        | nil => intro i r hr; simp at hr
+        | cons a t ih =>
+          intro i r hr k hk
+          cases i with
+          | zero =>
+            simp at hr; subst hr
+            match k, hk with
+            | 0, _ => rfl
+            | 1, _ => rfl
+            | 2, _ => rfl
+          | succ i =>
+            simp at hr
+            have := ih i r hr k hk
+            simp only [List.flatMap_cons]
+            have e : 3 * (i + 1) + k = (3 * i + k) + 3 := by omega
+            rw [e]
+            simpa using this
+      refine ⟨?_, ?_, ?_⟩
+      · have := congrArg List.length hm.1
+        simp only [List.length_map] at this
+        rw [this, hlen]
+      · rw [hm.1]
+        generalize rows = l
+        induction l with
+        | nil => rfl
+        | cons a t ih =>
+          simp only [List.flatMap_cons, List.map_append, List.map_cons, List.map_nil, ih]
+      · intro i r hr k hk
+        obtain ⟨p, hp, ho⟩ := hm.2 (3 * i + k) _ (hget rows i r hr k hk)
+        exact ⟨p, hp, ho⟩
+
+/-- one frame (`phase ≥ 0`): one row per input row, same names, the translation of the row in that frame -/
+theorem one_frame_names_and_count (alphabet : Nat) (phase : Nat) (codeId : Int) (rows out : List (String × Seq))
+    (h : translateFrames alphabet (phase : Int) codeId rows = some out) :
+    out.map Prod.fst = rows.map Prod.fst ∧
+    ∀ (i : Nat) (r : String × Seq), rows[i]? = some r →
+      ∃ p, translateSeq phase codeId r.2 = some p ∧ out[i]? = some (r.1, p) := by
+  unfold translateFrames at h
+  cases hg : geneticCode codeId with
+  | none => simp [hg] at h
+  | some code =>
+    simp only [hg] at h
+    split at h
+    · simp at h
+    · have hph : ((phase : Int) == -1) = false := by
+        simp only [beq_eq_false_iff_ne, ne_eq]; omega
+      have hfl : (rows.flatMap fun r => (framesOf (phase : Int)).map fun f => (frameName (phase : Int) r.1 f, f, r.2)) =
+          rows.map fun r => (r.1, phase, r.2) := by
+        simp only [framesOf, frameName, hph, Bool.false_eq_true, if_false, Int.toNat_natCast, List.map_cons, List.map_nil]
+        generalize rows = l
+        induction l with
+        | nil => rfl
+        | cons a t ih => simp [List.flatMap_cons, ih]
+      rw [hfl] at h
+      have hm := mapM_named (fun x : String × Nat × Seq => x.1) (fun x => translateSeq x.2.1 codeId x.2.2) _ out h
+      refine ⟨by rw [hm.1, List.map_map]; rfl, ?_⟩
+      intro i r hr
+      have : (rows.map fun r => (r.1, phase, r.2))[i]? = some (r.1, phase, r.2) := by simp [hr]
+      obtain ⟨p, hp, ho⟩ := hm.2 i _ this
+      exact ⟨p, hp, ho⟩
+
+/-- `Alignment.Translate` caches the length of the first translated row (−1 without rows) -/
+theorem alignTranslate_length (alphabet : Nat) (phase : Int) (codeId : Int) (rows out : List (String × Seq)) (len : Int)
+    (h : alignTranslate alphabet phase codeId rows = some (out, len)) :
+    translateFrames alphabet phase codeId rows = some out ∧
+    (out = [] → len = -1) ∧ (∀ r t, out = r :: t → len = (r.2.length : Int)) := by
+  unfold alignTranslate at h
+  cases ht : translateFrames alphabet phase codeId rows with
+  | none => simp [ht] at h
+  | some o =>
+    simp only [ht, Option.map_some, Option.some.injEq, Prod.mk.injEq] at h
+    obtain ⟨h1, h2⟩ := h
+    subst h1
+    refine ⟨rfl, ?_, ?_⟩
+    · intro e; subst e; exact h2.symm
+    · intro r t e; subst e; exact h2.symm
+
 /-! ## non-vacuity -/
 
 example : translateSeq 1 0 [65, 65, 84, 71, 78, 78, 78, 84, 65, 82, 45, 45, 45] = some [77, 88, 42, 45] := by
+  decide
+
+/-- protein rows `M-K*`, nucleotides `ATGAAATAGC` (one trailing base): threading, length, translating back -/
+example : codonAlignRow [77, 45, 75, 42] [65, 84, 71, 65, 65, 65, 84, 65, 71, 67] =
+    some [65, 84, 71, 45, 45, 45, 65, 65, 65, 84, 65, 71] := by decide
+example : translateSeq 0 0 [65, 84, 71, 65, 65, 65, 84, 65, 71, 67] = some [77, 75, 42] ∧
+    ungap [77, 45, 75, 42] = [77, 75, 42] ∧
+    translateSeq 0 0 [65, 84, 71, 45, 45, 45, 65, 65, 65, 84, 65, 71] = some [77, 45, 75, 42] := by decide
+example : codonAlignRow [77, 75] [65, 84, 71, 65, 65] = none ∧ codonAlignRow [77] [65, 84, 71, 65, 65, 65] = none := by decide
+
+/-- reference `-AC--GTAC`, other row `TACTTGTAC`: the column in front of the first codon is dropped, the codon
+`A C - - G` faces five nucleotides (frameshift: `X`), then `TAC` -/
+example : translateByReference 1 0 0 "r" [("r", [45, 65, 67, 45, 45, 71, 84, 65, 67]), ("s", [84, 65, 67, 84, 84, 71, 84, 65, 67])] =
+    some [("r", [84, 89]), ("s", [88, 89])] := by decide
+/-- an insertion of a whole codon: reference `AC---GTAC`, other row `ACTTTGTAC` ↦ `T-Y` / `TLY` -/
+example : translateByReference 1 0 0 "r" [("r", [65, 67, 45, 45, 45, 71, 84, 65, 67]), ("s", [65, 67, 84, 84, 84, 71, 84, 65, 67])] =
+    some [("r", [84, 45, 89]), ("s", [84, 76, 89])] := by decide
+/-- no gaps, frame 1 -/
+example : translateByReference 1 1 0 "r" [("r", [65, 65, 84, 71, 65]), ("s", [67, 71, 67, 84, 84])] =
+    some [("r", [77]), ("s", [65])] ∧ translateSeq 1 0 [67, 71, 67, 84, 84] = some [65] := by decide
+/-- shorter than `3 + phase`: empty rows, while plain translation fails -/
+example : translateByReference 1 0 0 "r" [("r", [65, 67]), ("s", [65, 67])] = some [("r", []), ("s", [])] ∧
+    translateSeq 0 0 [65, 67] = none := by decide
+example : translateFrames 1 (-1) 0 [("a", [65, 84, 71, 65, 65])] = some [("a_0", [77]), ("a_1", [42]), ("a_2", [69])] := by
   decide
 
 end Gv.Props.C05
